@@ -75,7 +75,31 @@ def _mk_path(name, kind):
 # --------------------------------------------------------------------------
 def _gen_base(rng):
     cls = rng.choice(["ConvexPolyhedron", "Polyhedron"])
-    mode = rng.choice(["generic", "generic", "signed_perm", "tiny", "huge"])
+    mode = rng.choice(["generic", "generic", "generic", "signed_perm", "signed_perm", "tiny",
+                       "huge", "decimal", "large"])
+    if mode == "decimal":
+        # axis-aligned box whose coordinates print as one digit times a power of ten
+        # (5e-07, -2e-05, 300000.0, 1e+16): exponent notation with a one-digit mantissa
+        half = [rng.choice([1, 2, 5]) * 10.0 ** rng.choice([-7, -6, -5, -1, 0, 5, 16])
+                for _ in range(3)]
+        v0 = gen.box(*half)
+        base = {"cls": cls, "family": "decimal_box", "vertices": gen.tolist(v0),
+                "placement": mode}
+        if cls == "Polyhedron":
+            base["faces"] = gen.hull_faces(gen.box(1.0, 1.0, 1.0))
+            base["faces_are_convex"] = True
+        return base
+    if mode == "large":
+        # more than 256 lines of vertices + faces in one file
+        n = rng.randint(90, 130)
+        v0 = gen.prism(n, rng.uniform(0.5, 2.0)) if rng.chance(0.5) else \
+            gen.ellipsoid_points_fast(rng, n)
+        v, R, sc, off = gen.place3d(v0, rng, scale=10 ** rng.uniform(-1, 1))
+        base = {"cls": cls, "family": "large", "vertices": gen.tolist(v), "placement": mode}
+        if cls == "Polyhedron":
+            base["faces"] = gen.hull_faces(v0)
+            base["faces_are_convex"] = True
+        return base
     kw = {}
     if mode == "signed_perm":
         kw = dict(rotate=False, scale=rng.choice([1.0, -1.0, 0.5, 1e-5, 3e6]), offset_diam=0.0)
@@ -133,7 +157,8 @@ def gen_spec(seed, index, tier):
     spec["cfg"] = {"bufsize": ops.choice([1, 7, 64, 512, 8192]),
                    "chunk": ops.choice([1, 32, 8192]),
                    "real_disk_compare": (not faulty_run) and ops.chance(0.08),
-                   "observe": ops.choice(["full", "full", "light"])}
+                   "observe": "light" if base.get("placement") == "large" else
+                   ops.choice(["full", "full", "light"])}
     nsteps = ops.randint(1, 6)
     same_path = ops.chance(0.6)
     steps = []
@@ -177,6 +202,21 @@ def gen_spec(seed, index, tier):
         st["pyseed"] = ops.u32()
         st["npseed"] = ops.u32()
     spec["steps"] = steps
+    if base.get("placement") in ("generic", "signed_perm") and ops.chance(0.06):
+        # directed history: two formats to sibling names sharing a stem, the shape
+        # changed in between (an exporter must not pick up another export's file)
+        f1, f2 = ops.sample(FORMATS, 2)
+        if ops.chance(0.5):
+            f1, f2 = "X3D", "HTML"
+        mk = lambda f, pk: {"op": "export", "fmt": f, "via": ops.choice(["io", "save"]),  # noqa
+                            "path": "sib.%s" % EXT[f], "pathkind": pk, "fs_faults": [],
+                            "pyseed": ops.u32(), "npseed": ops.u32()}
+        spec["steps"] = [mk(f1, "str"),
+                         {"op": "mutate", "fmt": "-", "m": {
+                             "op": "set", "prop": "volume", "inner": False,
+                             "arg": {"kind": "factor", "f": ops.choice([0.5, 2.0, 3.0])},
+                             "pyseed": ops.u32(), "npseed": ops.u32()}},
+                         mk(f2, ops.choice(["str", "Path"]))] + spec["steps"][:2]
     # a fifth of the runs export a polyhedron *with history*: mutators before and
     # between the exports (after each one the oracle re-reads the shape's geometry)
     if base.get("placement") in ("generic", "signed_perm") and ops.chance(0.2):
